@@ -25,7 +25,40 @@ ASSUMPTIONS = ["the parser reads only bytes at or after the carry-over cursor (C
 NOT_DECIDED = "equality with a fresh connection on all continuations (follows from R11.1 by argument, not enumerated)"
 
 # field -> predicate on the value assigned that counts as re-initialisation
-FIELDS = ("state", "read_cursor", "body_vec", "body_bytes_to_be_read", "files", "pending_request")
+BASE_FIELDS = ("state", "read_cursor", "body_vec", "body_bytes_to_be_read", "files", "pending_request")
+FIELDS = BASE_FIELDS
+# fields of HttpConnection that are not state of the request parser (frozen; one reason each)
+NOT_PARSER_STATE = {
+    "stream": "the transport",
+    "buffer": "raw bytes; what is live in it is delimited by read_cursor, which is reset",
+    "parsed_requests": "requests already accepted (C01 R01.4: only push_back / pop_front)",
+    "response_queue": "output side (C06)",
+    "response_buffer": "output side (C06)",
+    "payload_max_size": "configuration, written by its setter only",
+}
+
+
+def parser_fields(ctx):
+    """The listed parser fields plus every field of HttpConnection that is not in the frozen list above and is
+    written by code running under try_read: such a field is state a rejected request can leave behind."""
+    from .fields import field_writers
+    from .util import roots_of
+    facts = ctx.facts
+    extra = []
+    for f in [x["name"] for x in facts.struct_fields(conn.HC)]:
+        if f in BASE_FIELDS or f in NOT_PARSER_STATE:
+            continue
+        read_side = False
+        for w in field_writers(facts, conn.HC, f):
+            if w[0] == conn.P + "new":
+                continue
+            roots = roots_of(facts, w[0]) or {w[0]}
+            if any(r.startswith(conn.P) and last_seg(r) in ("try_read", "read_and_parse", "parse_request_line", "parse_headers", "parse_body", "read_bytes", "recv_with_fds", "shift_buffer_left", "reset_parser") for r in roots):
+                read_side = True
+        ctx.ob("R11.1", "new-field|%s" % f, True, "HttpConnection.%s is not in the frozen field list: %s" % (f, "written on the read side, so it must be re-initialised on a ParseError like the other parser fields" if read_side else "never written on the read side, so a rejected request cannot leave anything in it"))
+        if read_side:
+            extra.append(f)
+    return BASE_FIELDS + tuple(extra)
 
 
 def run(ctx):
@@ -33,6 +66,12 @@ def run(ctx):
     ctx.rule("R11.2", "server: the ParseError arm discards parsed requests, queues exactly one 400 from the error's Display, stays open, yields nothing")
     ctx.guarded("R11.1", "reset", lambda: reset(ctx))
     ctx.guarded("R11.2", "server", lambda: server_400_arm(ctx, "R11.2"))
+    ctx.rule("R11.3", "the buffer keeps the bytes of a rejected request beyond what was received since: the parsers read it only through slices with an explicit upper end, and those ends are the received end / the located CRLF / start + remaining (= C02 R02.5, C01 R01.5)")
+    ctx.guarded("R11.3", "bounded", lambda: bounded_buffer_reads(ctx, "R11.3"))
+    from .c06 import _Remap
+    from . import c01, c02
+    ctx.guarded("R11.3", "lines", lambda: c02.lines(_Remap(ctx, "R11.3")))
+    ctx.guarded("R11.3", "body", lambda: c01.body(_Remap(ctx, "R11.3")))
 
 
 def initial_values(ctx):
@@ -178,8 +217,10 @@ def refine_can_be_parse_error(facts, Sh, fn, lf):
     return True
 
 
-def reset(ctx):
+def reset(ctx, only_fields=None):
+    global FIELDS
     facts = ctx.facts
+    FIELDS = parser_fields(ctx)
     init = initial_values(ctx)
     reset_fns = find_reset_fns(ctx, init)
     ctx.note("reset helpers recognised: %s" % {k.split("::")[-1]: sorted(v) for k, v in reset_fns.items()})
@@ -210,6 +251,8 @@ def reset(ctx):
             elif last_reset < last_dirty or last_reset == -1:
                 missing.append(f)
         key = "exit-via-%s" % src
+        if only_fields is not None:
+            missing = [f for f in missing if f in only_fields]
         if missing:
             bad.setdefault(key, (lf, missing))
         else:
@@ -225,6 +268,40 @@ def reset(ctx):
             if s != TOP and s[0] == "Err" and s[1] != TOP and s[1][0] == "ParseError":
                 pe += 1
     ctx.ob("R11.1", "parse-errors-exist", pe >= 10, "%d distinct ParseError shapes can leave the three line/body parsers (floor 10)" % pe)
+
+
+def bounded_buffer_reads(ctx, rule):
+    """Every use of self.buffer in the three parsers is buffer[a..b] (a Range / RangeTo with an upper end)."""
+    n = 0
+    bsz = ctx.facts.const_int("connection::BUFFER_SIZE")
+    for name in (conn.PARSE_RL, conn.PARSE_H, conn.PARSE_B):
+        fn, lv = leaves(ctx, name)
+        seen = set()
+        for lf in lv:
+            for e in lf.events:
+                if e[0] != "call":
+                    continue
+                args = e[4][2]
+                for i, a in enumerate(args):
+                    x = look(a)
+                    if not (x[0] == "field" and x[2] == conn.HC and x[3] == "buffer"):
+                        continue
+                    key = (e[3], int(e[1]), getattr(e[1], "fn", None) and e[1].fn.name)
+                    if key in seen:
+                        continue
+                    seen.add(key)
+                    n += 1
+                    ok = last_seg(e[3]) in ("len", "is_empty", "fill", "copy_within")      # the capacity, not the contents; overwriting / moving inside the buffer hands no byte to a parser
+                    if not ok:
+                        # the whole buffer is live on a path that established end == BUFFER_SIZE
+                        for (t, c, _b) in lf.conds[:]:
+                            if t[0] == "bin" and t[1] == "Eq" and truth(c) is True and bsz in (const_of(t[2]), const_of(t[3])) and any(look(z)[0] == "arg" for z in (t[2], t[3])):
+                                ok = True
+                    if not ok and last_seg(e[3]) in ("index", "index_mut", "get", "get_mut") and i == 0 and len(args) == 2:
+                        r = look(args[1])
+                        ok = r[0] == "agg" and (r[1].startswith("std::ops::Range::") or r[1].startswith("std::ops::RangeTo") or r[1].startswith("std::ops::RangeInclusive") or r[1] in ("std::ops::Range", "std::ops::RangeTo", "std::ops::RangeInclusive", "std::ops::RangeToInclusive"))
+                    ctx.ob(rule, "bounded|%s|%s" % (last_seg(name), last_seg(e[3])), ok, "%s uses self.buffer through %s: only a slice with an explicit upper end keeps stale bytes out of reach" % (last_seg(name), term_s(e[4])[:120]), fn.loc(e[1]))
+    ctx.ob(rule, "bounded|floor", n >= 6, "%d uses of self.buffer in the three parsers inspected (floor 6)" % n)
 
 
 def server_400_arm(ctx, rule):
